@@ -229,11 +229,12 @@ async fn exec(w: &W, pool: &Pool, tid: usize, i: usize, op: &Op, stmts: &mut Vec
             g.audit(pool, false, false);
             return;
         }
-        Op::Prepare { slot, sql } | Op::PrepareTyped { slot, sql, .. } => {
+        Op::Prepare { slot, sql } | Op::PrepareTyped { slot, sql, .. } | Op::PrepareJoin { slot, sql, .. } => {
             let typed = match op {
-                Op::PrepareTyped { types, .. } => Some(*types),
+                Op::PrepareTyped { types, .. } | Op::PrepareJoin { types, .. } => Some(*types),
                 _ => None,
             };
+            let joined = matches!(op, Op::PrepareJoin { .. });
             let key: Key = (*sql % SQLS.len() as u8, typed.unwrap_or(0) % TYPELISTS.len() as u8);
             let text = SQLS[key.0 as usize];
             let given = TYPELISTS[key.1 as usize];
@@ -253,8 +254,32 @@ async fn exec(w: &W, pool: &Pool, tid: usize, i: usize, op: &Op, stmts: &mut Vec
                 }
                 (c, h, expect_hit, g.total_msgs())
             };
+            let any_ok = std::sync::atomic::AtomicBool::new(false);
             let r = match typed {
                 None => timeout(OP_TIMEOUT, h.cw().prepare_cached(text)).await,
+                Some(t) if joined => {
+                    // both calls overlap on the same client: both may miss, both must end up
+                    // under one key
+                    let tys = types_of(t);
+                    timeout(OP_TIMEOUT, async {
+                        // each half records its own success: the outer timeout may cut the join short
+                        let one = || async {
+                            let r = h.cw().prepare_typed_cached(text, &tys).await;
+                            if r.is_ok() {
+                                any_ok.store(true, std::sync::atomic::Ordering::Relaxed);
+                                // the key is in the cache from this instant on (other tasks may
+                                // audit before the second half finishes)
+                                let mut g = w.lock().unwrap();
+                                let at = g.conns[c as usize].handouts;
+                                let _ = g.conns[c as usize].keys.entry(key).or_insert(at);
+                            }
+                            r
+                        };
+                        let (a, b) = tokio::join!(one(), one());
+                        a.and_then(|_| b)
+                    })
+                    .await
+                }
                 Some(t) => timeout(OP_TIMEOUT, h.cw().prepare_typed_cached(text, &types_of(t))).await,
             };
             let mut g = w.lock().unwrap();
@@ -284,8 +309,12 @@ async fn exec(w: &W, pool: &Pool, tid: usize, i: usize, op: &Op, stmts: &mut Vec
                 }
             } else {
                 g.probe("cache_miss");
-                let exact = seg.len() == 1 && is_the_parse(&seg[0]);
-                let tolerated = seg.is_empty() || exact;
+                let exact = (seg.len() == 1 && is_the_parse(&seg[0]))
+                    || (joined && seg.len() == 2 && seg.iter().all(|m| is_the_parse(m) && m.reply.answered_ok()));
+                if joined && seg.len() == 2 {
+                    g.probe("overlapping_prepares_both_missed");
+                }
+                let tolerated = seg.is_empty() || exact || (joined && seg.len() <= 2 && seg.iter().all(|m| is_the_parse(m)));
                 if (ok && !(exact && seg[0].reply.answered_ok())) || (!ok && !tolerated) {
                     // did the Parse go to some other connection?
                     let elsewhere: Vec<String> = (0..g.conns.len() as u32)
@@ -302,7 +331,7 @@ async fn exec(w: &W, pool: &Pool, tid: usize, i: usize, op: &Op, stmts: &mut Vec
                     );
                     g.violate("cache_miss_one_parse_same_conn", d);
                 }
-                if ok {
+                if ok && !joined {
                     let at = g.conns[c as usize].handouts;
                     let _ = g.conns[c as usize].keys.insert(key, at);
                 }
